@@ -1,8 +1,10 @@
-"""Engine `usb2stack` -- the USB2 PHY-to-device stack as a composition (EXTRA sub-checks for C20, C22, C23, C57).
+"""Engine `usb2stack` -- the USB2 PHY-to-device stack as a composition (EXTRA sub-checks for C08, C19, C20, C22, C23, C25, C57).
 
 DUT (A): ULPI PHY model (hosts/ulpi_phy.py, driven by hosts/ulpi_host.py) -> real UTMITranslator -> real USBDevice with the
 standard control endpoint and the CDC-ACM stream endpoints (`USBSerialDevice(bus=<ULPI record>)`), 60 MHz `usb` domain.
-DUT (B), NOT BUILT: full-speed line-level host -> real GatewarePHY -> the same device (specified in Usb2Stack.tla only).
+DUT (B): full-speed line-level host (hosts/fsline_host.py, D+/D- at 48 MHz) -> real GatewarePHY -> the same device, 12 MHz `usb`
+/ 48 MHz `usb_io`.  Bus events (reset, chirp handshake, suspend, resume, VBUS, soft disconnect) are driven through the ULPI PHY's
+line-state reports with the reset sequencer's ms-range constants scaled at elaboration.
 
 The leaf engines check the translator (C22/C23), the gateware PHY (C25), the device core on a UTMI record (C20) and the serial
 device on a UTMI record (C57) one by one; none of them elaborates `USBDevice(bus=<ULPI or raw pins>)`, so the wiring in
@@ -34,7 +36,7 @@ REAL_TIMES = {"T2P5US": 150, "T5US": 300, "T200US": 12000, "T1MS": 60000, "T2MS"
 SCALED_TIMES = {"T2P5US": 150, "T5US": 300, "T200US": 600, "T1MS": 1500, "T2MS": 2000, "T2P5MS": 2500, "T3MS": 3000}
 FC_FS, FC_HS = 0x45, 0x40    # ULPI Function Control: FS transceiver + pull-up / HS transceiver + HS termination, normal mode
 ULPI_LAT = 6         # PHY-interface latency allowance (clocks) on top of the C05 deadline, see docs/usb2stack.md
-LINE_LAT = 12        # 48 MHz samples
+LINE_LAT = 0         # the line-level window is the host's 16 bit-time time-out already
 
 
 def _cfg(name):
@@ -65,7 +67,8 @@ class StackBench(leaf.Bench):
             from ..hosts import ulpi_host
             self.bus = ulpi_host.make_ulpi_record()
         else:
-            raise NotImplementedError("line-level bench (part B) not built")
+            from ..hosts import fsline_host
+            self.bus = fsline_host.make_io_record()
         self.dut = USBSerialDevice(bus=self.bus, idVendor=VID, idProduct=PID, max_packet_size=maxpkt)
         if scaled:
             # the reset sequencer reads its time constants (class attributes) while it is elaborated: scale the ms-range ones
@@ -84,8 +87,9 @@ class StackBench(leaf.Bench):
         if phy == "ulpi":
             self.sim.add_clock(1 / 60e6, domain="usb")
         else:
-            self.sim.add_clock(1 / 12e6, domain="usb")
-            self.sim.add_clock(1 / 48e6, domain="usb_io")
+            # usb = usb_io / 4 with coinciding rising edges (GatewarePHY demands phase-related clocks); times are nominal
+            self.sim.add_clock(0.25e-6, phase=0.125e-6, domain="usb_io")
+            self.sim.add_clock(1e-6, phase=0.125e-6, domain="usb")
         self.sim.add_testbench(self._bench)
         self._first = True
         self.cycles = 0
@@ -95,7 +99,8 @@ class StackBench(leaf.Bench):
             from ..hosts import ulpi_host
             return ulpi_host.ULPIHost(self.bus, rng, gap_prob=sc.get("gap", 0.0), stall_prob=sc.get("stall", 0.0),
                                       max_stall=sc.get("max_stall", 3), fs_pacing=sc.get("fs_pacing", 0))
-        raise NotImplementedError("line-level bench (part B) not built")
+        from ..hosts import fsline_host
+        return fsline_host.FSLineHost(self.bus, rng, phase=sc.get("phase", 0), rate=sc.get("rate", 0), gap_prob=sc.get("gap", 0.0))
 
     # -- PHY-boundary records ------------------------------------------------------------------
     def _wire(self):
@@ -588,6 +593,50 @@ def sc_bus(rng, family):
     return ops
 
 
+COMMITS = {"DoTx", "DoRx", "CommitOut", "HostAckIn", "CommitInNoAck", "DoSetAddr"}
+
+
+def behaviour_to_ops(beh):
+    """Env side of a TLC-simulated behaviour of MCUsb2Stack (spec -> code): the committed steps' `act` records and the SOFs
+    become host operations; which packets the device sends in between is up to the real stack (and judged by TLC again)."""
+    ops = []
+    frame = 1
+    for name, st in beh[1:]:
+        if name == "HostSof":
+            ops.append(("sof", frame))
+            frame = (frame + 1) % 2048
+            continue
+        if name not in COMMITS:
+            continue
+        a = st["act"]
+        e = a["e"]
+        if e == "tx":
+            ops.append(("tx", [[a["beat"][0], a["beat"][1]]], True))
+        elif e == "rx":
+            ops.append(("rx", a["n"]))
+        elif e == "out":
+            ops.append(("out", a["addr"], a["tog"], list(a["payload"]), a["crc_ok"]))
+        elif e == "in":
+            ops.append(("in", a["addr"], a["host_ack"]))
+        elif e == "ctl":
+            ops.append(("ctl", a["addr"], dict(a["req"]), ()))
+    return ops
+
+
+def replay_items(rep, num, depth):
+    cfg = _cfg("MCUsb2Stack_sim.cfg.tmpl")
+    behs = tlc.simulate(SPEC_DIR, "MCUsb2Stack", cfg, num=num, depth=depth, seed=rep.seed * 17 + 3)
+    items = []
+    for i, beh in enumerate(behs):
+        ops = behaviour_to_ops(beh)
+        if not ops:
+            continue
+        items.append(run_family(rep, "ulpi", 2, "tlc_simulate_replay", ops, i, rx_manual=True, avoid_overrun=False,
+                                gap=(0.0, 0.3)[i % 2], stall=(0.0, 0.3)[i % 2]))
+    rep.notes.append("usb2stack: %d TLC-simulated behaviours of MCUsb2Stack replayed into the real stack (MaxPkt 2)" % len(items))
+    return items
+
+
 # ---- classification / validation -----------------------------------------------------------------------------------
 def classify(trace, matched, status, meta):
     return {"clause": status, "pattern": meta.get("phy", "?") + "/" + meta.get("family", "?")}
@@ -757,7 +806,8 @@ def extra_C57(rep):
     """The serial device carries bytes both ways -- through the PHY."""
     quick = rep.tier == "quick"
     common(rep)
-    for mp, count in (((8, 4),) if quick else ((8, 12), (64, 8))):
+    validate(rep, replay_items(rep, 6 if quick else 120, 60), 2, "usb2stack(ULPI) ")
+    for mp, count in (((8, 2),) if quick else ((8, 12), (64, 8))):
         items = []
         for i in range(count):
             rng = random.Random("%s-C57-%d-%d" % (rep.seed, mp, i))
@@ -765,7 +815,81 @@ def extra_C57(rep):
             items.append(run_family(rep, "ulpi", mp, "bulk_backpressure", ops, i, gap=rng.choice([0, 0.3]),
                                     stall=rng.choice([0, 0.3]), rx_p=rng.choice([1.0, 0.6, 0.3]), tx_p=rng.choice([1.0, 0.5]),
                                     avoid_overrun=i % 2 == 0))
-        validate(rep, items, mp, "usb2stack(ULPI) ")
+        if mp == 8:                                   # ... and through the gateware PHY
+            for k in range(1 if quick else 4):
+                rng = random.Random("%s-C57-line-%d" % (rep.seed, k))
+                ops = [SET_ADDR(rng.randint(1, 127))] + sc_backpressure(rng, 8)[: 24 if quick else 40]
+                items.append(run_family(rep, "line", 8, "line_bulk_backpressure", ops, k, gap=0.5, rate=(0, 25, -25)[k % 3],
+                                        rx_p=rng.choice([1.0, 0.5]), tx_p=rng.choice([1.0, 0.5]), avoid_overrun=k % 2 == 0))
+        validate(rep, items, mp, "usb2stack(ULPI + line) ")
+
+
+STUFF_PAYLOADS = [[0xFF], [0xFF, 0xFF], [0xFF] * 3, [0xFF] * 7, [0xFF] * 8, [0xFC], [0x3F, 0xFC], [0x7E], [0xFE, 0x01], [0x00, 0xFF, 0x00],
+                  [0x80, 0xFF, 0x7F], [0xFF, 0xFC], [0x3F, 0x3F, 0x3F], [0xF8, 0x07], [0xFD, 0xFB, 0xF7], [0x00], [0x7F, 0xBF, 0xDF, 0xEF]]
+
+
+def sc_line_stuffing(rng, maxpkt, part):
+    """Bit-stuffing boundary payloads through the line in both directions: runs of ones inside / across byte boundaries, six
+    ones right before the CRC, payloads whose CRC16 itself needs stuffing (random ones), ZLP, exactly MaxPkt."""
+    ops = [SET_ADDR(rng.randint(1, 127))]
+    tog = 0
+    pls = [p[:maxpkt] for k, p in enumerate(STUFF_PAYLOADS) if k % 2 == part] + [[rng.randrange(256) for _ in range(maxpkt)]]
+    for pl in pls:
+        ops.append(("out", None, tog, list(pl), True))
+        tog ^= 1
+        ops.append(("tx", [[b, j == len(pl) - 1] for j, b in enumerate(pl)], True))
+        ops.append(("in", None, True))
+        if len(pl) == maxpkt:
+            ops.append(("in", None, True))                       # the zero-length packet that closes the transfer
+    return ops
+
+
+def sc_line_mixed(rng, maxpkt):
+    """Partial enumeration, class requests, noise (SOF, foreign tokens, corrupted CRC, lost handshakes, junk) and bulk traffic."""
+    a = rng.randint(1, 127)
+    ops = [("ctl", None, req(0, 0, 1, 6, 0x0100, 0, rng.choice([8, 18, 64])), ()), SET_ADDR(a),
+           ("ctl", None, req(0, 0, 1, 6, 0x0200, 0, rng.choice([9, 255])), ()), SET_CFG(1), GET_CFG()]
+    ops += leaf.class_vendor_ops(rng)[:3]
+    ops += [("sof", rng.randrange(2048)), ("quiet_in", None, 3), ("quiet_in", (a + 5) % 128, 4),
+            ("out", (a + 1) % 128, 0, [1, 2], True), ("out", None, 0, [3, 4], False), ("out", None, 0, [3, 4], True),
+            ("out", None, 0, [3, 4], True), ("junk", [rng.randrange(256) for _ in range(3)]),
+            ("tx", [[9, False], [8, True]], True), ("in", None, False), ("in", None, True)]
+    ops += leaf.resolve_auto(leaf.data_ops(rng, maxpkt, 2 * maxpkt - 1, 14), rng)
+    return ops
+
+
+def line_items(rep, tag, quick, what=("stuff", "mixed")):
+    items = []
+    plans = []
+    if "stuff" in what:
+        # all four sampling phases; the host's bit rate nominal, 0.25 % fast, 0.25 % slow
+        plans += [("line_stuffing", lambda r, k=k: sc_line_stuffing(r, 8, k % 2), dict(phase=k, rate=(0, 25, -25, 0)[k]), k)
+                  for k in range(4 if quick else 8)]
+    if "mixed" in what:
+        plans += [("line_mixed", lambda r: sc_line_mixed(r, 8), dict(gap=0.5, rate=(25, -25, 0)[k % 3], rx_p=(1.0, 0.5)[k % 2],
+                                                                      tx_p=(1.0, 0.6)[k % 2]), k) for k in range(1 if quick else 6)]
+    for fam, gen, kw, k in plans:
+        rng = random.Random("%s-%s-%s-%d" % (rep.seed, tag, fam, k))
+        kw = dict(kw)
+        kw["phase"] = kw.get("phase", 0) % 4
+        items.append(run_family(rep, "line", 8, fam, gen(rng), k, **kw))
+    b = bench("line", 8)
+    late = sorted({g for g, _ in b.stats["gaps"] if g is not None and g > 26})
+    if late:
+        rep.drift.append("usb2stack(line): the device starts its response %s samples (%.1f..%.1f bit times) after the host's EOP; "
+                         "USB 2.0 7.1.18.1 allows a device 6.5 bit times at its connector (the host waits 16..18): the gateware "
+                         "PHY's pipelines add several bit times to the 2..7 cycles of C05's timer. Information only."
+                         % (late, late[0] / 4, late[-1] / 4))
+    return items
+
+
+def extra_C25(rep):
+    """The gateware PHY in composition: line-level host -> real GatewarePHY -> real USBDevice / USBSerialDevice."""
+    quick = rep.tier == "quick"
+    common(rep)
+    rep.assume("usb2stack(line): sampled digital D+/D- (no skew / analogue), usb = usb_io / 4 phase-locked, host bit rate within "
+               "+-0.25 %, the pins read back what the device drives; response window at the pins = 2 .. 16 bit times")
+    validate(rep, line_items(rep, "C25", quick), 8, "usb2stack(line) ")
 
 
 def _bus_families(rep, families, tag):
@@ -795,6 +919,5 @@ def extra_C19(rep):
     _bus_families(rep, ("fs", "plug", "susp"), "C19")
 
 
-# Part (B) -- FS line -> GatewarePHY -> USBDevice -- is specified (the `line` branches of Usb2Stack.tla, LineCode.tla) but has no
-# bench yet (hosts/fsline_host.py does not exist): no EXTRA for C25 is registered, so nothing is claimed for it.
-EXTRA = {"C08": extra_C08, "C19": extra_C19, "C20": extra_C20, "C22": extra_C22, "C23": extra_C23, "C57": extra_C57}
+EXTRA = {"C08": extra_C08, "C19": extra_C19, "C20": extra_C20, "C22": extra_C22, "C23": extra_C23, "C25": extra_C25,
+         "C57": extra_C57}
